@@ -285,6 +285,16 @@ def _run_case(ctx, case, dcf):
         w.call("merge_config", p.merge_config, cfg, other)
         w.call("merge_config(reversed)", p.merge_config, other, cfg)
         w.call("strip_unknown", p.strip_unknown, cfg)
+        if "cls" in kinds:
+            # both configurations hold a spec for the same argument but name different classes (init_args of one do not fit the other)
+            alt = _alt_class_object(case)
+            try:
+                cfg_alt = P.build(recipe, **kw).parse_object(alt)
+            except Exception:  # noqa
+                cfg_alt = None
+            if cfg_alt is not None:
+                w.call("merge_config(class change)", p.merge_config, cfg_alt, cfg)
+                w.call("merge_config(class change, reversed)", p.merge_config, cfg, cfg_alt)
         # a configuration that fails validation midway: last top-level key replaced by an unserialisable / invalid value
         broken = cfg.clone()
         keys = [k for k in broken.keys() if not k.startswith("cfg")]
@@ -315,6 +325,24 @@ def _run_case(ctx, case, dcf):
     if w.raised or "cls" in kinds or any(_deep_mutable(v) for v in case["values"].values()):
         ctx.mark_nontrivial()
     ctx.sample()
+
+
+def _alt_class_object(case):
+    """the case's object with every fixture class spec switched to another class of the family (with init_args of its own)"""
+    FX = "vf.gen.fixtures."
+    swap = {FX + "SubA": {"class_path": FX + "SubB", "init_args": {"r": [1.5]}}, FX + "SubB": {"class_path": FX + "SubA", "init_args": {"q": "alt", "p": 7}},
+            FX + "Base": {"class_path": FX + "SubA", "init_args": {"q": "alt"}}, FX + "SubReq": {"class_path": FX + "SubB", "init_args": {}}}
+
+    def walk(v):
+        if isinstance(v, dict):
+            if v.get("class_path") in swap:
+                return copy.deepcopy(swap[v["class_path"]])
+            return {k: walk(x) for k, x in v.items()}
+        if isinstance(v, list):
+            return [walk(x) for x in v]
+        return v
+
+    return walk(P.as_object(copy.deepcopy(case["values"]), case["subcommand"]))
 
 
 def _state(o):
